@@ -273,13 +273,14 @@ def run(rep, tier, seed, tr_errors):
                 "num_RC x num_F_ext_evaluations x rapid), Z-HIT (6 smoothing x 5 interpolation x Z/Y x window/weights x (num_points, order)), "
                 "DRT (tr-nnls, lm, mrq-fit, bht in thorough), fit (methods x weights, lists) on a 26-point and a 6-point spectrum; non-trivial = "
                 "distinct option tuple that ran to completion or was refused; distinct by tuple")
-    rep.trusted += ["Coq 8.16.1 kernel, vm_compute", "model coq/An/Progress.v of progress.py (tie 2: correspondence on sequences); gen/Steps_gen.v translated from zhit/__init__.py (tie 1)",
+    rep.trusted += ["Coq 8.16.1 kernel, vm_compute", "model coq/An/Progress.v of progress.py (tie 2: correspondence on sequences); gen/Steps_gen.v translated from zhit/__init__.py and fitting.py, gen/ProgressBlocks_gen.v from every `with Progress(total=<literal>)` block under analysis/ (tie 1; the path-sensitive increment count of tools/tr_progress.py is trusted)",
                     "the step counts of KK/DRT/fit are observed (Progress wrapped), not proved; numeric libraries are exercised only"]
     if "tr_steps" in tr_errors:
         rep.oblige("translator:tr_steps", False, tr_errors["tr_steps"][-400:])
     else:
         rep.oblige("translator:tr_steps", True, "gen/Steps_gen.v regenerated")
-    thm_ok, names, out = lib.check_props_file(rep, PROPS_FILE, expect=["C18_fraction_in_unit", "C18_increment_raises_iff", "C18_zhit_steps_ok", "C18_fit_steps_ok"])
+    rep.oblige("translator:tr_progress", "tr_progress" not in tr_errors, tr_errors.get("tr_progress", "gen/ProgressBlocks_gen.v regenerated (literal-total Progress blocks, largest increment count on any path)")[-400:])
+    thm_ok, names, out = lib.check_props_file(rep, PROPS_FILE, expect=["C18_fraction_in_unit", "C18_increment_raises_iff", "C18_zhit_steps_ok", "C18_fit_steps_ok", "C18_constant_blocks_run_to_the_end"])
     pcs = progress_cases(rng, 400 if tier == "quick" else 5000)
     cases = []
     bad_msgs = 0
